@@ -530,8 +530,8 @@ package transport
 //@   requires ote != nil && ote.stream != nil && ctx != nil && len(q) >= 12
 //@   modifies *
 //@   ensures[C07] rxOK(resp, err)
-//@   ensures calls(streamWrite) <= 1
-//@   ensures calls(streamWrite) == 1 ==> atcall(streamWrite, 0, wireCopy(arg(streamWrite, 0, 1), q, 0, true))
+//@   ensures calls(Write) <= 1
+//@   ensures calls(Write) == 1 ==> atcall(Write, 0, wireCopy(arg(Write, 0, 1), q, 0, true))
 //@   ensures resp != nil ==> be16(*resp) == old(be16(q))
 //@   ensures resp != nil ==> calls(chanRecv) == 1 && resp == ret(chanRecv, 0, 0).resp
 //@ func (ote *quicReservedExchanger) ExchangeReserved$1 [C01]
